@@ -87,8 +87,13 @@ CHECKS = {
             "limit settings, endless streams, long chains, cyclic and DAG delegations (risky cases one per process)",
             CLIENT + "Theorems: a fetch succeeds only within its limit and with the expected digest, a size refusal only hits "
             "streams that exceed the limit; at most max_root_updates newer roots are requested for every limit up to 2^64-1 "
-            "(pre-repair overflow refuted). Partial: termination and the request bound of the delegation loader are checked "
-            "by correspondence (self/mutual delegation, DAGs) with the known finding F15; not yet proved.",
+            "(pre-repair overflow refuted); termination (C09_cycle_terminates): the recursion of the delegation loader is "
+            "never deeper than the number of entries of the trusted snapshot and the walk makes at most max_root_updates "
+            "hops, so the model's fuel is never exhausted and every cycle ends with success or an error, whatever the "
+            "server serves; requests (C09_requests): at most max_root_updates newer roots, three top-level files, and files "
+            "of delegated roles listed in the snapshot, at most as many as its entries when none is requested twice "
+            "(a role reachable along two paths is requested once per path: known finding shared_delegate, F15). "
+            "Correspondence over self/mutual delegation, cycles with leaf siblings, random cyclic graphs, DAGs.",
             NOTE + MODELLED, "5/C09"),
     "C10": ("Coq proof of editor-then-client = identity for repositories without delegated roles (composition of the "
             "editor's sign/write model with the client model), meta-exactness, threshold and incoming-metadata lemmas; random "
